@@ -476,6 +476,8 @@ class VariationalGammaMethod(EstimationMethod):
             )
         if not max_iterations > 0:
             raise ValueError("Maximum number of EP iterations must be greater than 0")
+        if not max_shape > 1:
+            raise ValueError("Maximum posterior shape must be greater than 1")
         if self.mutation_rate is None:
             raise ValueError("Variational gamma method requires mutation rate")
 
